@@ -175,6 +175,12 @@ func matrixCase(c *fw.Ctx, idx int) {
 	}
 	defer U.h.Close()
 	opts := sim.NetOpts{Peers: []peer.ID{A.ID}}
+	// authorization must not depend on settings that have nothing to do with trust:
+	// a third of the rounds run with tracing enabled
+	if r.Chance(1, 3) {
+		opts.Tune = func(cfg *ipfscluster.Config) { cfg.Tracing = true }
+		c.Cover("matrix/tracing-enabled")
+	}
 	trusted := map[string]bool{}
 	switch kind {
 	case "raft":
